@@ -510,6 +510,19 @@ func C07(run *core.Run) {
 		run.Add("model_states", res.Generated)
 		run.Add("model_behaviours", res.SimTraces)
 	}
+	if run.Thorough() {
+		// every interleaving of two connections, two client messages each, one-slot queues: 44.4M states
+		if res, err := tlcrun.Run(tlcrun.Options{Module: "RouterMC", Config: "RouterMC_ex.cfg", Workers: 16, Timeout: 60 * time.Minute, Heap: "24g"}); err != nil || !res.OK {
+			tail := ""
+			if res != nil {
+				tail = res.Tail
+			}
+			run.Problem("TLC failed on / found an error in the exhaustive configuration of RouterMC (model error, not a verdict on the code): %v\n%s", err, tail)
+		} else {
+			run.Add("model_states_exhaustive", res.Distinct)
+			run.Add("model_states", res.Generated)
+		}
+	}
 	n := 120
 	if run.Thorough() {
 		n = 1200
